@@ -294,11 +294,33 @@ def gen_kernel_calls(rng, n_each):
     return out
 
 
+def gen_axial_pair(rng, fn):
+    """second primitive in a random OBLIQUE frame M at c; the first one placed exactly on its axis (c + h * third column
+    of M), either coaxial (same frame) or with its own primary direction along that axis: the analytically-zero lateral
+    components are then rounding noise of either sign (point on the axis of a disk / circle / cylinder, line along the axis,
+    coaxial disks, plane parallel to a face ...)"""
+    ka, kb = pl.kinds_of(fn)
+    M = pl.random_rot(rng)
+    c = [rng.uniform(-3, 3) for _ in range(3)]
+    n = pl.colv(M, 2)
+    h = rng.choice([0.25, 0.5, 1.0, 2.0, -1.0, rng.uniform(-3, 3), rng.uniform(-3, 3)])
+    ca = [c[i] + h * n[i] for i in range(3)]
+    if rng.random() < 0.5:
+        Ma = M
+    else:
+        Ma = [[M[i][2], M[i][0], M[i][1]] for i in range(3)]     # columns (z, x, y): still a rotation
+    B = pl.gen_prim(rng, kb, "random", c, m=M)
+    A_ = pl.gen_prim(rng, ka, "random", ca, m=Ma)
+    return dict(fn=fn, A=A_, B=B, stream="axial")
+
+
 def gen_distance_calls(rng, per_fn):
     out = []
     for fn in pl.FUNCS:
-        for _ in range(per_fn):
-            c = pl.gen_pair(rng, fn)
+        for k in range(per_fn + max(10, per_fn // 2)):
+            c = pl.gen_pair(rng, fn) if k < per_fn else gen_axial_pair(rng, fn)
+            if not pl.in_domain(c["A"], c["B"]):
+                c = pl.gen_pair(rng, fn)
             args = []
             for a in pl.case_args(c):
                 args.append(float(a) if isinstance(a, (int, float)) else A(a))
@@ -317,6 +339,38 @@ def gen_collider_calls(rng, n, tier):
         ops = [dict(o, timeout=0) for o in c12.scene_ops(sc) if o.get("tag") != "mpr_fine"]
         out.append(dict(k="collider", c1=sc["c1"], c2=sc["c2"], ops=ops, same_object=bool(sc["meta"].get("same_object")),
                         L=sc["meta"]["L"], meta=sc["meta"], budget=600.0))
+    return out
+
+
+def gen_nesterov_calls(rng, n):
+    """the Nesterov primitives solver with the (non-default) acceleration switched on, on flat and needle-like primitives:
+    its rarely taken exits (convergence check while the acceleration is still active, 4-point simplex) are reached there.
+    Calls are cheap (1-2 ms even interpreted), so many are made."""
+    out = []
+    for _ in range(n):
+        def extreme(spec):
+            u = rng.random()
+            f = 10 ** rng.uniform(-2, -1.3) if u < 0.7 else 10 ** rng.uniform(1.3, 2.0)
+            if spec["kind"] == "ellipsoid":
+                spec["radii"][rng.randrange(3)] = f
+            elif spec["kind"] == "box":
+                spec["size"][rng.randrange(3)] = f
+            elif spec["kind"] in ("capsule", "cylinder"):
+                spec[rng.choice(["radius", "height" if spec["kind"] == "capsule" else "length"])] = f
+            return spec
+        k1 = rng.choice(["ellipsoid", "ellipsoid", "ellipsoid", "box", "cylinder", "capsule"])
+        k2 = rng.choice(nw.PRIMS)
+        s1 = extreme(nw.gen_collider(rng, k1, "moderate", spread=1.5, margin_prob=0.0))
+        s2 = nw.gen_collider(rng, k2, "moderate", spread=1.5, margin_prob=0.0)
+        if rng.random() < 0.3:
+            s2 = extreme(s2)
+        if rng.random() < 0.5:
+            s1, s2 = s2, s1
+        ops = [dict(fn="nesterov_prim", kw=dict(use_nesterov_acceleration=True), timeout=0, tag="np_acc"),
+               dict(fn="nesterov", kw=dict(use_nesterov_acceleration=True), timeout=0, tag="n_acc"),
+               dict(fn="nesterov_prim", timeout=0, tag="np_plain"), dict(fn="gjk_jolt", timeout=0)]
+        out.append(dict(k="collider", c1=s1, c2=s2, ops=ops, L=nw.scene_scale([s1, s2]), meta=dict(stream="nesterov-extreme"), fam="nesterov-extreme",
+                        budget=600.0))
     return out
 
 
@@ -663,7 +717,7 @@ def family(c):
         return c["mod"].replace("distance3d.", "")
     if c["k"] == "worker":
         return c.get("fam", c["module"])
-    return c["k"]
+    return c.get("fam", c["k"])
 
 
 def run(tier, seed, replay=None):
@@ -726,6 +780,7 @@ def run(tier, seed, replay=None):
         calls += gen_kernel_calls(R.rng, 10 if q else 100)
         calls += gen_distance_calls(R.rng, 4 if q else 40)
         calls += gen_collider_calls(R.rng, 36 if q else 300, tier)
+        calls += gen_nesterov_calls(R.rng, 1000 if q else 8000)
         calls += gen_mesh_calls(R.rng, 12 if q else 100)
         calls += gen_tree_calls(R.rng, 10 if q else 80, tier)
         calls += gen_foreign_calls(R.rng, tier, notes)
